@@ -249,13 +249,14 @@ def _dd_skeleton(p, fid, f):
     p.file(fid, vrl=512)
     lf = p.lf(fid, lf=fid, fh_id='DEFAULTS-HISTORY')
     p.origin(lf, name='O')
-    kw = {}
-    if f.get('long'):
-        kw['long_name'] = S(f['long'])
-    if f.get('dim'):
-        kw['dimension'] = L(I(f['dim']))
-    if f.get('lim'):
-        kw['element_limit'] = L(I(f['lim']))
+    kw = {}          # in the order of the first touch in the history (Canon keeps the attributes in the order of their assignment)
+    for k in f:
+        if k == 'long':
+            kw['long_name'] = S(f['long'])
+        elif k == 'dim':
+            kw['dimension'] = L(I(f['dim']))
+        elif k == 'lim':
+            kw['element_limit'] = L(I(f['lim']))
     ch = p.channel(lf, f.get('name', 'VA'), dataset_name='dset', **kw)
     p.frame(lf, 'FR', [ch])
     z = p.add(lf, 'zone', 'Z')
